@@ -78,6 +78,10 @@ class Runner:
             r = RR(self.make_body(i, spec))
             self.R.append(r)
             self.idx[id(r)] = i
+        # the case's other clock object (same logical time in NRT, different `_clock` identity)
+        kind = case.get('clock', 'sys')
+        self.alt = {'sys': None, 'tempo': self.clk.TempoClock(1) if kind == 'tempo' else None,
+                    'app': self.clk.AppClock}.get(kind)
         self.conds = [stm.Condition() for _ in range(case['nc'])]
         self.fvs = [stm.FlowVar() for _ in range(case['nf'])]
 
@@ -95,7 +99,7 @@ class Runner:
             return f'n{int(v)}'
         if v == 'hang':
             return 'H'
-        if isinstance(v, tuple) and len(v) == 2 and id(v[0]) in self.idx and v[1] is self.clk.SystemClock:
+        if isinstance(v, tuple) and len(v) == 2 and id(v[0]) in self.idx and v[1] in (self.clk.SystemClock, self.alt):
             return f't{self.idx[id(v[0])]}'
         if v is self.stm.FlowVar._UNBOUND:
             return 'U'
@@ -137,7 +141,10 @@ class Runner:
         r = self.R[t]
         before = r.state.name
         try:
-            getattr(r, o)()
+            if o == 'play' and actor == 'M' and self.alt is not None:
+                r.play(self.alt)            # the outside plays on the case's other clock
+            else:
+                getattr(r, o)()
             refused = False
         except self.stm.RoutineException:
             refused = True
@@ -279,9 +286,11 @@ class Runner:
         rs = []
         for i, r in enumerate(self.R):
             term = '-' if r._terminal_value is stm.Routine._SENTINEL else self.enc(r._terminal_value)
-            rs.append(f'r{i}={r.state.name}/i{0 if r._iterator is None else 1}/{self.enc(r._last_value)}/{term}')
+            rs.append(f'r{i}={r.state.name}/i{0 if r._iterator is None else 1}/{self.enc(r._last_value)}/{term}'
+                      f'/k{0 if r._clock is self.clk.SystemClock else 1}')
         t = main.main_tt._m_seconds
-        q = ''.join(f'({int(tm) if tm == int(tm) else tm},{self.idx.get(id(ct.task), "?")})'
+        q = ''.join(f'({int(tm) if tm == int(tm) else tm},{self.idx.get(id(ct.task), "?")}'
+                    f'{"" if ct.clock is self.clk.SystemClock else "*"})'
                     for tm, ct in main._clock_scheduler.queue)
         cs = [f'c{i}={"T" if c._test else "F"}[{" ".join(str(self.idx.get(id(x), "?")) for x in c._waiting_threads)}]'
               for i, c in enumerate(self.conds)]
